@@ -66,7 +66,7 @@ type replayIn struct {
 	Stub   string  `json:"stub"` // self-test: a deliberately wrong oracle ("tip-a4-is-a3")
 }
 
-// replayWorld materialises MCSync.tla's TreeB / TreeC with real blocks (allow = 1, require = 3:
+// replayWorld materialises SyncMC.tla's TreeB / TreeC with real blocks (allow = 1, require = 3:
 // a batch based at height >= 3 goes through checkpoint + pre-validation).
 func replayWorld(family, seed string) (*World, error) {
 	w := NewWorld(1, 3, 1000)
